@@ -112,6 +112,8 @@ def main():
               "level_note": note,
               "technique": tech,
             })
+            if eng == "reng":
+                m["checks"][-1]["replay_cmd_template"] = "./check %s --replay {path}" % pid
         else:
             m["not_applicable"].append({"property_id": pid, "reason": NOT_YET})
     json.dump(m, open("/verif/MANIFEST.json", "w"), indent=1)
